@@ -45,23 +45,23 @@ type tileVec struct {
 }
 
 type tileEvent struct {
-	E        string `json:"e"`
-	Run      string `json:"run"`
-	K        int    `json:"k"`
-	H        int    `json:"h"`
-	L        int    `json:"l"`
-	N        int64  `json:"n"`
-	W        int    `json:"w"`
-	Req      string `json:"req"`
+	E        string   `json:"e"`
+	Run      string   `json:"run"`
+	K        int      `json:"k"`
+	H        int      `json:"h"`
+	L        int      `json:"l"`
+	N        int64    `json:"n"`
+	W        int      `json:"w"`
+	Req      string   `json:"req"`
 	Reqs     []string `json:"reqs"` // every request made for the tile (the server answers the first one of some tiles with a 503)
-	Tlog     string `json:"tlog"`
-	Parsed   bool   `json:"parsed"`
-	From     uint64 `json:"from"`
-	To       uint64 `json:"to"`
-	RefOK    bool   `json:"refok"`
-	Accepted bool   `json:"accepted"`
-	OldOK    bool   `json:"oldok"`
-	PfLen    int    `json:"pflen"`
+	Tlog     string   `json:"tlog"`
+	Parsed   bool     `json:"parsed"`
+	From     uint64   `json:"from"`
+	To       uint64   `json:"to"`
+	RefOK    bool     `json:"refok"`
+	Accepted bool     `json:"accepted"`
+	OldOK    bool     `json:"oldok"`
+	PfLen    int      `json:"pflen"`
 }
 
 // recWitness records what the feeder submits and passes it on to the real witness.
@@ -122,7 +122,7 @@ func tileMain(args []string) error {
 	var mu sync.Mutex
 	var lastPath string
 	var allPaths []string // every request made for the tile in hand
-	failOnce := false    // the server's answer class for the tile in hand: it answers the first request with a 503 (a transient failure), later ones normally
+	failOnce := false     // the server's answer class for the tile in hand: it answers the first request with a 503 (a transient failure), later ones normally
 	srv := httptest.NewServer(http.HandlerFunc(func(w http.ResponseWriter, r *http.Request) {
 		mu.Lock()
 		lastPath = r.URL.Path
